@@ -111,11 +111,14 @@ func newLexer(env *interp.ExecEnv, name string, r io.RuneScanner) *lexer {
 		col:     1,
 	}
 	l.mark(0)
+	verifPoint(l, EvStart)
 	go l.run()
 	return l
 }
 
 func (l *lexer) Lex(lval *yySymType) int {
+	verifPoint(l, EvRecvBefore)
+	defer verifPoint(l, EvRecvAfter)
 	switch tok := (<-l.token).(type) {
 	case token:
 		l.last.Store(tok.Pos())
@@ -130,6 +133,7 @@ func (l *lexer) Lex(lval *yySymType) int {
 }
 
 func (l *lexer) run() {
+	defer verifPoint(l, EvExit)
 	defer func() {
 		close(l.token)
 		if l.done != nil {
@@ -525,6 +529,7 @@ func (l *lexer) subst() bool {
 					}
 				}
 
+				verifPoint(l, EvSubst)
 				r := strings.NewReader(strings.TrimRight(v, "\t ") + " ")
 				l.aliases = append(l.aliases, &alias{
 					name:  w.Value,
@@ -1453,8 +1458,11 @@ func (l *lexer) scanCmdSubst(r rune) bool {
 		}
 		ll.mark(off)
 		ll.last.Store(ll.pos)
+		verifNest(l, ll)
+		verifPoint(ll, EvStart)
 		go ll.run()
 		yyParse(ll)
+		verifPoint(ll, EvNestedParseExit)
 		<-ll.done
 		if ll.err != nil {
 			l.mu.Lock()
@@ -1593,12 +1601,15 @@ func (l *lexer) emit(typ int) {
 		}
 	}
 	l.word = nil
+	verifPoint(l, EvSendBefore)
 	select {
 	case l.token <- tok:
 	case <-l.cancel:
 		// bailout
+		verifPoint(l, EvBail)
 		panic(nil)
 	}
+	verifPoint(l, EvSendAfter)
 	l.mark(0)
 }
 
@@ -1621,6 +1632,7 @@ func (l *lexer) read() (rune, error) {
 		l.mark(0)
 	}
 
+	verifPoint(l, EvRead)
 	r, _, err := l.r.ReadRune()
 	switch {
 	case err != nil:
@@ -1662,6 +1674,7 @@ func (l *lexer) Error(e string) {
 }
 
 func (l *lexer) error(pos ast.Pos, msg string) {
+	verifPoint(l, EvErrWrite)
 	l.mu.Lock()
 	defer l.mu.Unlock()
 
@@ -1718,6 +1731,7 @@ func (h *heredoc) exists() bool {
 }
 
 func (h *heredoc) inc() {
+	verifPointH(h, EvHdInc)
 	atomic.AddUint32(&h.n, 1)
 }
 
@@ -1725,6 +1739,7 @@ func (h *heredoc) push(r *ast.Redir) {
 	h.mu.Lock()
 	h.stack = append(h.stack, r)
 	h.mu.Unlock()
+	verifPointH(h, EvHdPush)
 	// incoming
 	select {
 	case h.c <- struct{}{}:
@@ -1740,11 +1755,14 @@ func (h *heredoc) pop() *ast.Redir {
 			h.stack = h.stack[1:]
 			h.mu.Unlock()
 			atomic.AddUint32(&h.n, ^uint32(0))
+			verifPointH(h, EvHdPopGot)
 			return r
 		}
 		h.mu.Unlock()
 		// wait
+		verifPointH(h, EvHdPopWait)
 		<-h.c
+		verifPointH(h, EvHdPopWake)
 	}
 	return nil
 }
